@@ -50,7 +50,11 @@ func (f *Unless) Call(s *slip.Scope, args slip.List, depth int) (result slip.Obj
 	result = nil
 	d2 := depth + 1
 	pos := 0
-	if slip.EvalArg(s, args, pos, d2) == nil {
+	tv := primaryValue(slip.EvalArg(s, args, pos, d2))
+	if _, ok := tv.(slip.NonLocalExit); ok {
+		return tv
+	}
+	if tv == nil {
 		for pos++; pos < len(args); pos++ {
 			result = slip.EvalArg(s, args, pos, d2)
 			if _, ok := result.(slip.NonLocalExit); ok {
